@@ -148,9 +148,13 @@ def perform(rig, call):
     if name == "zone_damper":
         return zones[call[1]].set_damper_percentage(call[2])
     if name == "quick_duration":
-        return acs[call[1]].set_quick_timer(api.AcTimerType[call[2]], datetime.timedelta(minutes=call[3]))
+        # optional 5th element: extra milliseconds (0..59999); "the value will be truncated to a one minute resolution"
+        return acs[call[1]].set_quick_timer(api.AcTimerType[call[2]],
+                                            datetime.timedelta(minutes=call[3], milliseconds=call[4] if len(call) > 4 else 0))
     if name == "timer_time":
-        return acs[call[1]].set_quick_timer(api.AcTimerType[call[2]], datetime.time(hour=call[3], minute=call[4]))
+        ms = call[5] if len(call) > 5 else 0
+        return acs[call[1]].set_quick_timer(api.AcTimerType[call[2]],
+                                            datetime.time(hour=call[3], minute=call[4], second=ms // 1000, microsecond=(ms % 1000) * 1000))
     if name == "timer_clear":
         return acs[call[1]].clear_quick_timer(api.AcTimerType[call[2]])
     raise ValueError(call)
